@@ -347,6 +347,12 @@ func clientOne(res *hlib.Result, r *cRig, trk *tracker, rec *hlib.Recorder, ops 
 			})
 		}
 		got := r.observe(ncalls)
+		// while the shutdown is held after a fault, a call that fails EARLIER than the specification's
+		// rendering (error where "pending" is expected) is no violation of the property: another order of
+		// the shutdown's steps; the rest of the behaviour does not apply
+		if r.holdCh != nil && !r.unheld && earlyErrorOnly(exp, got) {
+			return 1
+		}
 		if !ok {
 			// not what the representative behaviour expects: another allowed outcome, or a hang
 			for _, a := range o.Allowed {
@@ -376,6 +382,30 @@ func clientOne(res *hlib.Result, r *cRig, trk *tracker, rec *hlib.Recorder, ops 
 		return 2
 	}
 	return 0
+}
+
+// earlyErrorOnly: the observation differs from the expectation only by calls that already failed
+// where the expectation still has them pending or in their write
+func earlyErrorOnly(exp, got cObs) bool {
+	if len(exp.C) != len(got.C) || exp.Got != got.Got || got.Cb < exp.Cb || got.Cb > 1 {
+		return false
+	}
+	if exp.Sub != got.Sub && !(exp.Sub == 1 && got.Sub == 2) {
+		return false
+	}
+	// the disconnect callback or the subscription's close may come early as well
+	diff := exp.Cb != got.Cb || exp.Sub != got.Sub
+	for i := range exp.C {
+		if exp.C[i] == got.C[i] {
+			continue
+		}
+		if got.C[i] == 3 && (exp.C[i] == 1 || exp.C[i] == 4) {
+			diff = true
+			continue
+		}
+		return false
+	}
+	return diff
 }
 
 func (r *cRig) unhold() {
